@@ -182,6 +182,7 @@ def name_menu():
     names += ["self", "point", "variable", "kwargs", "other", "name", "value", "inner", "n", "base", "args", "left",
               "right", "expression", "compute_early", "_private", "variable_name", "variable_names", "cls", "whatever",
               "multiplier", "accumulator", "exponent", "coordinates", "_coordinates"]
+    names += [n for n in A.library_identifiers() if n not in names]   # every identifier the library's own code uses
     bad = ["\u338f", "x\u2122", "\u2116", "e\u0301", "\u00bd\u2044", "x\u00b7y", "\u2460\u20dd", "", " ", "a b", "a-b", "a\n", "\n", "é!", "x.y", "x+y", "a,b", "x=1", "(x)", "x ", " x", "a\tb", "​", "a b", "$x", "x'"]
     foreign = [3, None, 2.5, ("x",), ["x"], b"x"]
     return names, bad, foreign
